@@ -23,11 +23,11 @@ type RefDoc struct {
 // brought to (DESIGN 5.14): same disk clone, same effective settings, then for
 // every open document, in the original open order, didOpen(current text).
 type RefSpec struct {
-	Env       *Env
-	Init      J
-	Config    any // answer to workspace/configuration (nil: requests answered with an empty list)
-	Docs      []RefDoc
-	Cold      bool // no background task of the document opens runs
+	Env         *Env
+	Init        J
+	Config      any // answer to workspace/configuration (nil: requests answered with an empty list)
+	Docs        []RefDoc
+	Cold        bool // no background task of the document opens runs
 	Initialized bool
 }
 
@@ -35,7 +35,6 @@ type RefSpec struct {
 type Ref struct {
 	D *Driver
 }
-
 
 // autoAnswer answers every pending workspace/configuration request.
 func (r *Ref) autoAnswer(cfg any) {
